@@ -40,3 +40,7 @@ def run(ctx):
     ctx.floor("K4", 8)
     ctx.floor("K5", 6)
     ctx.floor("K2", 4)
+    # every single-child rule reaches the equivalence database as an edge (two-way: merged; one-way: recorded)
+    from ..engines import storekeys as SK
+    SK.w_insertion_discipline(ctx)
+    ctx.floor("W2", 3)
